@@ -10,7 +10,7 @@
 From Coq Require Import List ZArith Lia Bool Arith PeanoNat Permutation.
 From MomoCommon Require Import GenPrelude.
 From C07 Require Import TableSpec.
-From C07 Require Gen_Segments.
+From C07 Require Gen_Segments Gen_MultiHashOps.
 Import ListNotations.
 
 Definition seg_size (k : nat) : nat := Z.to_nat (Gen_Segments.GetItemCount (Z.of_nat k)).
@@ -45,7 +45,20 @@ Definition isort (l : list Z) : list Z := fold_right ins [] l.
 
 (* pvAdd: rawCount = |vals|; when rawCount is a positive multiple of 64 and GetSegItemIndexes says it is
    the first slot of a segment, the previous segment [rawCount - segSize, rawCount) is sorted first *)
+(* pvAdd.  The DECISION (is a sort due, and of which index range) is the function GENERATED from the real
+   DataIndexes::MultiHash::pvAdd (Gen_MultiHashOps.pvAdd: the two arguments of the pvSortRaws call are recorded in
+   the pseudo fields sortFrom / sortTo, both 0 when no call is made); the hand part is only what a sort of a
+   range and the final append do to the array.  pv_add_hand is the former hand transcription of the decision;
+   SegProofs.pv_add_is_hand proves the two equal for every array shorter than max_vals. *)
+Definition sort_range (n : nat) : nat * nat :=
+  let p := Gen_MultiHashOps.pvAdd 0 0 (Z.of_nat n) in
+  (Z.to_nat (fst p), Z.to_nat (snd p) - Z.to_nat (fst p)).          (* (from, count) *)
+Definition sort_slice (f d : nat) (vals : list Z) : list Z :=
+  firstn f vals ++ isort (firstn d (skipn f vals)) ++ skipn d (skipn f vals).
 Definition pv_add (raw : Z) (vals : list Z) : list Z :=
+  let r := sort_range (length vals) in sort_slice (fst r) (snd r) vals ++ [raw].
+
+Definition pv_add_hand (raw : Z) (vals : list Z) : list Z :=
   let n := length vals in
   let vals1 :=
     if Nat.ltb 0 n && Nat.eqb (n mod 64) 0 then
